@@ -24,7 +24,7 @@
 (* The expected results are NOT in the table: the trace specification      *)
 (* CalFlowTrace recomputes them from the logged abstract arguments.        *)
 (***************************************************************************)
-EXTENDS CalFlow, Json, IOUtils
+EXTENDS CalFlow, Json, IOUtils, Integers
 
 MaxDim   == atoi(IOEnv.CALFLOW_MAXDIM)
 NVar     == atoi(IOEnv.CALFLOW_NVAR)
@@ -258,7 +258,22 @@ Life(t, r, c, nf, form, rel, k, adds, pi) ==
     [op |-> "life", t |-> t, r |-> r, c |-> c, nf |-> nf, form |-> form,
      rel |-> rel, k |-> k,
      leak |-> IF OutsideLeak(t) THEN LeakOf(t, r, c, OkOnly(t, r, c, adds)) ELSE {},
-     pi |-> pi]
+     pi |-> pi, noise |-> 0, kit |-> "use", mag |-> 0, alev |-> 0]
+
+(* Dimensions of the simulated instrument and of the cal kit, chosen here: *)
+(*   kit    the order in which the kit's parameters are created relative   *)
+(*          to the order of first use ("use" same, "rev" reversed, "hi8"   *)
+(*          first-used created ninth, second-used first, ...): handle      *)
+(*          numbers and order of use are decoupled                         *)
+(*   mag    receiver gain 10^mag (magnitude of every reading)              *)
+(*   alev   a/b reference level 10^alev                                    *)
+(*   noise  1: measurement-error model set, readings carry that noise      *)
+With(life, noise, kit, mag, alev) ==
+    [life EXCEPT !.noise = noise, !.kit = kit, !.mag = mag, !.alev = alev]
+
+KitOf(v)  == <<"use", "hi8", "rev">>[(v % 3) + 1]
+MagOf(v)  == <<0, -4, 0, 6, -6, 3>>[((v \div 2) % 6) + 1]
+ALevOf(v) == <<0, 3, -3>>[((v \div 3) % 3) + 1]
 
 Op(name) == [op |-> name]
 Apply(d) == [op |-> "apply", dut |-> d, mode |-> 0]
@@ -285,7 +300,8 @@ C01Row(t, r, c, v) ==
                 ELSE InsertAt(adds, v % (Len(adds) + 1), bad[(v % Len(bad)) + 1]))
         uns  == TLCEval(Unspec(t, r, c))
     IN [name |-> Name("c01", t, r, c, v),
-        steps |-> <<Life(t, r, c, NfOf(v), FormOf(v), "none", 0, all, <<>>)>>
+        steps |-> <<With(Life(t, r, c, NfOf(v), FormOf(v), "none", 0, all, <<>>),
+                         0, KitOf(v), MagOf(v), ALevOf(v))>>
                   \o all
                   \o <<Op("solve"), Op("addcal"), Apply(v)>>
                   \o (IF NfOf(v) >= 3
@@ -299,7 +315,8 @@ C01Row(t, r, c, v) ==
 BadAllocRows(u) ==
     {[name |-> Name("c01-alloc", t, rc[1], rc[2], 0),
       steps |-> <<[op |-> "life", t |-> t, r |-> rc[1], c |-> rc[2], nf |-> 1,
-                   form |-> "m", rel |-> "none", k |-> 0, leak |-> {}, pi |-> <<>>]>>] :
+                   form |-> "m", rel |-> "none", k |-> 0, leak |-> {}, pi |-> <<>>,
+                   noise |-> 0, kit |-> "use", mag |-> 0, alev |-> 0]>>] :
         t \in Types, rc \in {<<1, 2>>, <<2, 1>>, <<0, 1>>, <<1, 0>>, <<2, 3>>, <<3, 2>>}}
 
 (* the documented order of calls: the frequency vector must be valid and   *)
@@ -387,14 +404,13 @@ C17Rels(t, r, c) ==
     \cup (IF r = c /\ r >= 2 THEN {"renumber"} ELSE {})
     \cup {"split"}
 
-C17Row(t, r, c, rel, v) ==
-    LET ps   == PsOf(v)
-        rec  == TLCEval(Recipe(t, r, c, ps))
+C17RowP(t, r, c, rel, v, ps, nfgiven, fgiven, tag) ==
+    LET rec  == TLCEval(Recipe(t, r, c, ps))
         n    == Len(rec)
         a1   == TLCEval([i \in 1..n |-> Pick(t, r, c, rec[i], v, i)])
         p    == Ports(r, c)
-        form == IF rel = "scale" THEN "ab" ELSE FormOf(v)
-        nf1  == IF rel = "split" THEN 2 + 3 * (v % 2) ELSE NfOf(v)
+        form == IF rel = "scale" THEN "ab" ELSE fgiven
+        nf1  == IF rel = "split" THEN 2 + 3 * (v % 2) ELSE nfgiven
         d    == v % 4
         life2 ==
           CASE rel = "entry" ->
@@ -406,6 +422,16 @@ C17Row(t, r, c, rel, v) ==
                      IF v % 2 = 0 THEN Reverse(a1) ELSE Rotate(a1), <<>>, <<>>, d)
             [] rel = "unrelated" ->
                  Run(t, r, c, nf1, form, "unrelated", 0, a1, <<>>, <<Op("unrelated")>>, d)
+            [] rel = "shared" ->
+                 \* the unrelated calibration comes first, shares a
+                 \* frequency-dependent kit parameter and is solved over the
+                 \* whole band
+                 <<Life(t, r, c, nf1, form, "unrelated", 0, a1, <<>>),
+                   [op |-> "unrelated", n |-> 0 - 1]>> \o a1
+                 \o <<Op("solve"), Op("addcal"), Apply(d)>>
+            [] rel = "resolve" ->
+                 \* solve, then solve again (the documented retry flow)
+                 Run(t, r, c, nf1, form, "resolve", 0, a1, <<>>, <<Op("solve")>>, d)
             [] rel = "scale" ->
                  Run(t, r, c, nf1, form, "scale", 0, a1, <<>>, <<>>, d)
             [] rel = "split" ->
@@ -418,9 +444,40 @@ C17Row(t, r, c, rel, v) ==
                  IN Run(t, r, c, nf1, form, "renumber", 0,
                         [i \in 1..n |-> Pick(t, r, c, RenPhys(rec[i], pi), v, i)],
                         pi, <<>>, d)
-    IN [name |-> Name("c17-" \o rel, t, r, c, v),
+    IN [name |-> Name("c17-" \o rel \o tag, t, r, c, v),
         steps |-> Run(t, r, c, nf1, form, "none", 0, a1, <<>>, <<>>, d)
-                  \o life2 \o <<[op |-> "compare", rel |-> rel]>>]
+                  \o life2
+                  \o <<[op |-> "compare",
+                        rel |-> IF rel = "shared" THEN "unrelated" ELSE rel]>>]
+
+C17Row(t, r, c, rel, v) == C17RowP(t, r, c, rel, v, PsOf(v), NfOf(v), FormOf(v), "")
+
+(* both lives with the given instrument / kit / noise settings *)
+MapLife(steps, noise, kit, mag, alev) ==
+    [i \in 1..Len(steps) |->
+        IF steps[i].op = "life" THEN With(steps[i], noise, kit, mag, alev)
+        ELSE steps[i]]
+
+(* a frequency-dependent standard with many knots (more than the library's *)
+(* interpolation window) used by two solves in one vnacal_t: an unrelated  *)
+(* calibration solved first over the whole band, or the same calibration   *)
+(* solved twice                                                            *)
+C17SharedRows(u) ==
+    {C17RowP(x[1], x[2], x[2], rel, 0, 2, 5, "m", "-vec") :
+        x \in (Types \X {2}) \cup ({"T8", "E12"} \X {1}),
+        rel \in {"shared", "resolve"}}
+
+(* addition order with a measurement-error model and noisy readings: each  *)
+(* standard keeps its own noisy reading in both orders; the weighted       *)
+(* least-squares solution must not depend on the order (column-system      *)
+(* types included; T16 / U16 need complete S matrices with an error model  *)
+(* and are left out)                                                       *)
+C17NoisyRows(u) ==
+    {LET row == C17RowP(x[1], x[2], x[2], "order", x[3], 1, 2,
+                        IF x[3] = 0 THEN "m" ELSE "ab", "-noisy")
+     IN [name |-> row.name, steps |-> MapLife(row.steps, 1, "use", 0, 0)] :
+        x \in {y \in {"T8", "U8", "TE10", "UE10", "UE14", "E12"} \X {2, 3} \X {0, 1} :
+                 y[2] = 2 \/ (y[1] \in {"UE14", "E12"} /\ MaxDim >= 3)}}
 
 (* four-port calibrations (their recipes hold the sparse multi-port        *)
 (* standards) are part of the quick table for two types with leakage terms *)
@@ -465,7 +522,7 @@ C17Table(u) ==
                                                v \in 0..(NVar - 1)} :
            x \in {y \in Types \X (1..MaxDim) \X (1..MaxDim) :
                      DimsOK(y[1], y[2], y[3]) /\ ApplyAccepts(y[2], y[3])}}
-    \cup C17SparseRows(u) \cup C17HashRows(u)
+    \cup C17SparseRows(u) \cup C17HashRows(u) \cup C17SharedRows(u) \cup C17NoisyRows(u)
 
 -----------------------------------------------------------------------------
 (* C20: the standard list of a (type, dims) and its sub-sequences          *)
@@ -508,7 +565,9 @@ C20Row(t, r, c, idx) ==
     IN [name |-> Name("c20", t, r, c, idx),
         steps |-> <<[op |-> "life", t |-> t, r |-> r, c |-> c, nf |-> 1 + (idx % 2),
                      form |-> form, rel |-> "none", k |-> 0,
-                     leak |-> LeakOf(t, r, c, full), pi |-> <<>>]>>
+                     leak |-> LeakOf(t, r, c, full), pi |-> <<>>,
+                     noise |-> 0, kit |-> KitOf(idx), mag |-> MagOf(idx \div 7),
+                     alev |-> ALevOf(idx \div 5)]>>
                   \o <<Op("solve")>>
                   \o Concat([i \in 1..k |->
                                <<adds[i], Op("solve"), Op("addcal"), Apply(idx + i)>>])]
@@ -523,12 +582,46 @@ C20Count(t, r, c) ==
 C20DegenerateRows(u) ==
     {[name |-> Name("c20-degenerate", t, 1, 1, 0),
       steps |-> <<[op |-> "life", t |-> t, r |-> 1, c |-> 1, nf |-> 2, form |-> "m",
-                   rel |-> "none", k |-> 0, leak |-> {}, pi |-> <<>>]>>
+                   rel |-> "none", k |-> 0, leak |-> {}, pi |-> <<>>,
+                   noise |-> 0, kit |-> "use", mag |-> 0, alev |-> 0]>>
                 \o [j \in 1..3 |-> Plain(t, 1, 1, ReflP(10 + j, 1, "X"))]
                 \o <<Op("solve"), Op("addcal"), Apply(0)>>] : t \in Types}
 
+(* Minimal (exactly determined) textbook sets at several magnitudes of the *)
+(* readings: short / open / match on port 1 and throughs from port 1 (the  *)
+(* column-system types: on every port, every pair), solve after every      *)
+(* addition, then one redundant standard.  Identifiability does not depend *)
+(* on the units of the readings.                                           *)
+MinimalSeq(t, n) ==
+    LET pairs == PairSeq(n)
+        refl(a) == <<ReflP(10 * a + 1, a, "S"), ReflP(10 * a + 2, a, "O"),
+                     ReflP(10 * a + 3, a, "Z")>>
+    IN IF ColSys(t)
+       THEN Concat([a \in 1..n |-> refl(a)])
+            \o [i \in 1..Len(pairs) |->
+                  ThruP(100 + 10 * pairs[i][1] + pairs[i][2], pairs[i][1], pairs[i][2])]
+       ELSE refl(1) \o [k \in 1..(n - 1) |-> ThruP(100 + 10 + k + 1, 1, k + 1)]
+
+C20MinimalRow(t, n, mag, o) ==
+    LET seq0 == TLCEval(MinimalSeq(t, n))
+        seq  == IF o = 0 THEN seq0 ELSE Reverse(seq0)
+        all  == TLCEval(seq \o <<ReflP(19, 1, "P")>>)
+        adds == TLCEval([i \in 1..Len(all) |-> Plain(t, n, n, all[i])])
+        form == IF (mag + o) % 2 = 0 THEN "m" ELSE "ab"
+    IN [name |-> Name("c20-minimal-" \o ToString(o), t, n, n, mag + 10),
+        steps |-> <<With(Life(t, n, n, 1 + o, form, "none", 0, adds, <<>>),
+                         0, "use", mag - 10, IF o = 0 THEN 0 ELSE 3),
+                    Op("solve")>>
+                  \o Concat([i \in 1..Len(adds) |->
+                               <<adds[i], Op("solve"), Op("addcal"), Apply(i)>>])]
+
+C20MinimalRows(u) ==
+    {C20MinimalRow(x[1], x[2], x[3], x[4]) :
+        x \in {"T8", "U8", "TE10", "UE10", "UE14", "E12"}
+              \X (1..(IF MaxDim < 3 THEN MaxDim ELSE 3)) \X {4, 6, 10, 15} \X {0, 1}}
+
 C20Table(u) ==
-    C20DegenerateRows(u) \cup
+    C20DegenerateRows(u) \cup C20MinimalRows(u) \cup
     UNION {{C20Row(x[1], x[2], x[3], idx) :
                idx \in {i \in 0..(C20Count(x[1], x[2], x[3]) - 1) :
                            i % Stride = (x[2] + 2 * x[3]) % Stride}} :
